@@ -146,6 +146,20 @@ def main():
     check('t_or_fact', not any(x[2] == '99' for x in rets) and any(x[2] == '1' for x in rets), 'after both_or_neither(a, b) the mixed arm is unreachable (no path returns 99); got %s' % sorted(x[2] for x in rets))
     o = run('t_provided', ['r']); oks = [x for x in o if x[0] == 'ok']; errs = [x for x in o if x[0] == 'err']
     check('t_provided', len(oks) == 1 and len(errs) == 1 and any('sym(r).n < 1' in ' '.join(x[1]) for x in errs), 'provided method -> required method of the concrete impl: Ok iff n >= 1; got ok %s err %s' % ([x[1] for x in oks], [(x[1], x[2]) for x in errs]))
+    # normal forms (rule layer): membership spellings, identity map, fold/sum, len/is_empty
+    o = run('t_any_eq', ['v', 'x']); rets = [x for x in o if x[0] == 'ret']
+    check('t_any_eq', len(rets) == 1 and rets[0][3] == ('contains', S('v'), S('x')), 'v.iter().any(|e| e == &x) is contains(v, x); got %s' % [x[3] for x in rets])
+    o = run('t_all_ne', ['v', 'x']); rets = [x for x in o if x[0] == 'ret']
+    check('t_all_ne', len(rets) == 1 and rets[0][3] == ('not', ('contains', S('v'), S('x'))), 'v.iter().all(|e| e != &x) is !contains(v, x); got %s' % [x[3] for x in rets])
+    o = run('t_subset', ['cur', 'new']); rets = [x for x in o if x[0] == 'ret']
+    ok = len(rets) == 1 and rets[0][3][0] == 'call' and rets[0][3][1].endswith('::all') and rets[0][3][2][1][0] == 'lambda' and rets[0][3][2][1][3][0][1][:2] == ('contains', S('new'))
+    check('t_subset', ok, 'cur.all(|c| new.any(|n| n == c)) is all(cur, |c| contains(new, c)); got %s' % [x[3] for x in rets])
+    o = run('t_fold_sum', ['v']); rets = [x for x in o if x[0] == 'ret']
+    check('t_fold_sum', len(rets) == 1 and rets[0][3][0] == 'call' and rets[0][3][1].endswith('Iterator::sum') and rets[0][3][2] == (('iter', S('v')),), 'map(identity).fold(0, +) is sum(iter(v)); got %s' % [x[3] for x in rets])
+    o = run('t_len_zero', ['v']); rets = [x for x in o if x[0] == 'ret']
+    check('t_len_zero', len(rets) == 1 and rets[0][3] == ('is_empty', S('v')), 'v.len() == 0 is is_empty(v); got %s' % [x[3] for x in rets])
+    o = run('t_len_pos', ['v']); rets = [x for x in o if x[0] == 'ret']
+    check('t_len_pos', len(rets) == 1 and rets[0][3] == ('not', ('is_empty', S('v'))), 'v.len() > 0 is !is_empty(v); got %s' % [x[3] for x in rets])
     # engine: equalities implied by order facts (total order): b<a false, m==a, m<b false ==> a==b
     import engine as _e
     class _PV(_e.PathView):
